@@ -119,7 +119,9 @@ template<class T> void ev_infinite(Fov<T> const& p) {
     auto tw = glm::tweakedInfinitePerspective(fovy, p.aspect, p.n);
     Ev("tweaked").str("t", TI<T>::code()) CFGFIELDS .num("tn", p.tn).num("td", p.td).arg(fovy).arg(p.aspect).arg(p.n).res(tw).emit();
     const T eps[] = { T(0), std::numeric_limits<T>::epsilon(), dy<T>(1, -10), T(0.001), dy<T>(1, -2) };
-    for (T ep : eps) {
+    static unsigned rot = 0;
+    for (int k = 0; k < 2; ++k) {
+        T ep = eps[(rot++) % 5];
         auto te = glm::tweakedInfinitePerspective(fovy, p.aspect, p.n, ep);
         Ev("tweakedEp").str("t", TI<T>::code()) CFGFIELDS .num("tn", p.tn).num("td", p.td).arg(fovy).arg(p.aspect).arg(p.n).arg(ep).res(te).emit();
     }
